@@ -129,20 +129,23 @@ func checkC17(c *Ctx) {
 			"proto.C2SWrapper.RegistrationAddress":   "the registrant (client) address of the registration message",
 		},
 		models: map[string]extModel{
-			"(*github.com/oschwald/geoip2-golang.Reader).Country": {map[int]bool{0: true}, "the record describes the network (country), not the address; the error is NOT clean: maxminddb embeds the looked-up address"},
-			"(*github.com/oschwald/geoip2-golang.Reader).ASN":     {map[int]bool{0: true}, "the record describes the network (AS number), not the address; the error is NOT clean"},
-			"(net.IP).To4":          {map[int]bool{}, ""},
-			"context.WithTimeout":   {map[int]bool{0: true, 1: true}, "a derived context carries no address"},
-			"context.WithCancel":    {map[int]bool{0: true, 1: true}, "a derived context carries no address"},
-			"(*sync.Pool).Get":      {map[int]bool{0: true}, "pool buffers"},
-			"time.Now":              {map[int]bool{0: true}, ""},
-			"(*bytes.Buffer).Bytes": {map[int]bool{}, ""},
-			"errors.New":            {map[int]bool{}, ""},
-			"(*github.com/refraction-networking/conjure/proto.C2SWrapper).GetRegistrationPayload":  {map[int]bool{0: true}, "the client-to-station payload does not contain the registrant address (it is a sibling field of the wrapper)"},
-			"(*github.com/refraction-networking/conjure/proto.C2SWrapper).GetSharedSecret":         {map[int]bool{0: true}, "sibling field"},
-			"(*github.com/refraction-networking/conjure/proto.C2SWrapper).GetRegistrationSource":   {map[int]bool{0: true}, "sibling field"},
-			"(*github.com/refraction-networking/conjure/proto.C2SWrapper).GetRegistrationResponse": {map[int]bool{0: true}, "sibling field"},
-			"(*github.com/refraction-networking/conjure/proto.C2SWrapper).GetDecoyAddress":         {map[int]bool{0: true}, "sibling field (the decoy, not the client)"},
+			"(*github.com/oschwald/geoip2-golang.Reader).Country": {cleanResults: map[int]bool{0: true}, reason: "the record describes the network (country), not the address; the error is NOT clean: maxminddb embeds the looked-up address"},
+			"(*github.com/oschwald/geoip2-golang.Reader).ASN":     {cleanResults: map[int]bool{0: true}, reason: "the record describes the network (AS number), not the address; the error is NOT clean"},
+			"google.golang.org/protobuf/proto.Unmarshal":          {cleanResults: map[int]bool{0: true}, reason: "protobuf decode errors describe the wire format (invalid wire-format data, unexpected EOF, invalid UTF-8 in a named field), never field contents"},
+			"google.golang.org/protobuf/proto.Marshal":            {cleanResults: map[int]bool{1: true}, reason: "protobuf encode errors name the message type / field, never field contents; the encoded bytes (result 0) stay tainted"},
+			"net/http.Post":         {cleanResults: map[int]bool{0: true, 1: true}, reason: "the error of a request names the method and the URL (station configuration), never the body; the response comes from the peer"},
+			"(net.IP).To4":          {cleanResults: map[int]bool{}, reason: ""},
+			"context.WithTimeout":   {cleanResults: map[int]bool{0: true, 1: true}, reason: "a derived context carries no address"},
+			"context.WithCancel":    {cleanResults: map[int]bool{0: true, 1: true}, reason: "a derived context carries no address"},
+			"(*sync.Pool).Get":      {cleanResults: map[int]bool{0: true}, reason: "pool buffers"},
+			"time.Now":              {cleanResults: map[int]bool{0: true}, reason: ""},
+			"(*bytes.Buffer).Bytes": {cleanResults: map[int]bool{}, reason: ""},
+			"errors.New":            {cleanResults: map[int]bool{}, reason: ""},
+			"(*github.com/refraction-networking/conjure/proto.C2SWrapper).GetRegistrationPayload":  {cleanResults: map[int]bool{0: true}, reason: "the client-to-station payload does not contain the registrant address (it is a sibling field of the wrapper)"},
+			"(*github.com/refraction-networking/conjure/proto.C2SWrapper).GetSharedSecret":         {cleanResults: map[int]bool{0: true}, reason: "sibling field"},
+			"(*github.com/refraction-networking/conjure/proto.C2SWrapper).GetRegistrationSource":   {cleanResults: map[int]bool{0: true}, reason: "sibling field"},
+			"(*github.com/refraction-networking/conjure/proto.C2SWrapper).GetRegistrationResponse": {cleanResults: map[int]bool{0: true}, reason: "sibling field"},
+			"(*github.com/refraction-networking/conjure/proto.C2SWrapper).GetDecoyAddress":         {cleanResults: map[int]bool{0: true}, reason: "sibling field (the decoy, not the client)"},
 		},
 		skipCall: func(f *ssa.Function, in ssa.Instruction, cc *ssa.CallCommon) bool {
 			return calleeShort(cc) == "RemoteAddr" && gatedByLogIP(f, in)
